@@ -158,7 +158,7 @@ class Check:
                 if v["replay"] is None:
                     continue
                 print("VIOLATION property=%s replay=%s" % (self.pid, v["replay"]))
-                if v["sig"] not in seen and len(seen) < 15:
+                if v["sig"] not in seen and len(seen) < int(os.environ.get("VERIF_MAXCELLS", "15")):
                     seen.add(v["sig"])
                     print("  cell=%s :: %s" % (v["sig"], v["detail"][:400].replace("\n", " | ")))
             print("FAIL property=%s violations=%d evaluations=%d wall=%.1fs" % (self.pid, len(self.violations), self.evaluations, wall))
